@@ -332,6 +332,8 @@ pub fn run_stream(mut p: stream::Parser, wire_bytes: &[u8], mut pos: usize, ch: 
     let mut delivered: BTreeMap<u8, Vec<u8>> = BTreeMap::new();
     let mut output = Vec::new();
     let mut calls = 0usize;
+    // derived from the chunking and the policy, so that the runs compared with each other differ
+    let drain_mode = format!("{ch:?}{policy:?}").bytes().fold(wire_bytes.len(), |a, b| a.wrapping_mul(31).wrapping_add(usize::from(b))) % 6;
     let mut idle_rounds = 0;
     let mut last_idle_rem: Option<Result<Vec<u8>, ErrKind>> = None;
     let mut switched = false;
@@ -420,9 +422,20 @@ pub fn run_stream(mut p: stream::Parser, wire_bytes: &[u8], mut pos: usize, ch: 
                     take_buffered(&mut p, &mut delivered);
                     p.compress();
                 }
-                output.extend_from_slice(p.output_buffer());
+                // how the caller drains the replies is part of "however the caller drives": all of
+                // it, all but one byte, a few bytes per call, or nothing until the very end
                 let ol = p.output_buffer().len();
-                p.consume_output(ol);
+                let take = match drain_mode {
+                    0 | 1 => ol,
+                    2 => ol.saturating_sub(1),
+                    3 => ol.min(7),
+                    4 => ol.min(16 + calls % 3),
+                    _ => 0,
+                };
+                output.extend_from_slice(&p.output_buffer()[..take]);
+                let rest = p.output_buffer()[take..].to_vec();
+                p.consume_output(take);
+                vensure!(p.output_buffer() == &rest[..], "stream-output-consume", "consume_output({take}) of {ol} pending bytes left wrong bytes in output_buffer");
                 let mut progressed = n > 0 || st.stream > 0 || st.output > 0;
                 if st.stream_end {
                     if let Some(s) = active {
@@ -459,6 +472,10 @@ pub fn run_stream(mut p: stream::Parser, wire_bytes: &[u8], mut pos: usize, ch: 
                 }
             },
         }
+    }
+    if !matches!(terminal, Terminal::Error(_)) {
+        // whatever the caller had not drained yet (the error path has already collected it)
+        output.extend_from_slice(p.output_buffer());
     }
     let remainder = p.clone().into_input().map_err(|e| err_kind(&e));
     Ok(StreamOutcome { delivered, output, terminal, remainder, records_seen_end: pos >= wire_bytes.len() })
